@@ -359,4 +359,220 @@ Proof using WF ZERO.
     destruct (attempts e components T find_algo 100 cc r bank pins draws); [reflexivity|reflexivity|discriminate].
   - destruct draws as [|d rest]; [cbn [List.length] in Hlen; lia|reflexivity].
 Qed.
+(* the first entry registered under a key that some entry carries has that key *)
+Lemma found_again' cc b code en :
+  In en R -> e_cc en = cc -> e_code en = code -> cc <> [] -> code <> [] ->
+  bban_lookup_key T cc b = Ok code ->
+  exists x, bban_bank T (bank_code_entries R) cc b = Ok (Some x) /\ e_code x = code /\ e_cc x = cc /\ In x R.
+Proof.
+  intros Hin Hcc Hcode Hnc Hnk Hkey. unfold bban_bank. rewrite Hkey. cbn [bind].
+  assert (Hmem : In en (bank_code_entries R cc code)).
+  { unfold bank_code_entries, idx_filter. apply filter_In. split; [exact Hin|].
+    unfold key_bank_code. rewrite Hcc, Hcode.
+    destruct cc as [|c0 cc']; [congruence|]. destruct code as [|k0 code']; [congruence|]. cbn [nonempty andb].
+    unfold pair_eqb. cbn [fst snd]. rewrite !text_eqb_refl. reflexivity. }
+  destruct (bank_code_entries R cc code) as [|x l] eqn:El; [destruct Hmem|].
+  exists x. split; [reflexivity|].
+  assert (Hx : In x (bank_code_entries R cc code)) by (rewrite El; left; reflexivity).
+  unfold bank_code_entries, idx_filter in Hx. apply filter_In in Hx as [HxR Hk].
+  unfold key_bank_code in Hk. destruct (nonempty (e_cc x) && nonempty (e_code x)); [|discriminate].
+  unfold pair_eqb in Hk. cbn [fst snd] in Hk. apply andb_true_iff in Hk as [H1 H2].
+  apply text_eqb_eq in H1, H2. repeat split; [symmetry; exact H2|symmetry; exact H1|exact HxR].
+Qed.
+
+(* ---- a registry-based draw carries the chosen bank's code in the bank-identifying field(s) ----------------------- *)
+Section Listed.
+Variable cc : text.
+Variable r : row.
+Variable en : entry.
+Variable pins : list (text * text).
+Variable d : text.
+Hypothesis Er : find_row T cc = Some r.
+Hypothesis LAY : fc_layout_ok components r = true.
+Hypothesis HP : forall k v, In (k, v) pins -> cleaned e v = true.
+Hypothesis HCODE : cleaned e (e_code en) = true.
+Hypothesis HD : forall k v, In (k, v) (r_defaults r) -> cleaned e v = true.
+Hypothesis HDRAW : cleaned e (upper e d) = true.
+Hypothesis NOBANK : assoc k_bank pins = None.
+Hypothesis NOBRANCH : assoc k_branch pins = None.
+Hypothesis CODE : e_code en <> [].
+
+Let rng := fc_rng components r.
+Let wd k := range_length (rng k).
+Let code := e_code en.
+Let comps2 := rnd_comps2 e components r (Some en) pins d.
+
+Lemma HB' : forall en', Some en = Some en' -> cleaned e (e_code en') = true.
+Proof using All. intros en' H. inversion H; subst. exact HCODE. Qed.
+
+Lemma listed_facts :
+  In k_bank components /\ In k_branch components /\ text_eqb k_bank k_branch = false
+  /\ text_eqb k_bank k_national = false /\ text_eqb k_branch k_national = false
+  /\ (0 <= wd k_bank)%Z /\ (0 <= wd k_branch)%Z.
+Proof using All.
+  pose proof LAY as L. unfold fc_layout_ok in L. repeat (apply andb_true_iff in L as [L ?]).
+  repeat match goal with X : negb _ = true |- _ => apply negb_true_iff in X end.
+  repeat match goal with X : existsb _ _ = true |- _ => apply existsb_in in X end.
+  match goal with X : forallb (fun c => range_in _ _) _ = true |- _ => rewrite forallb_forall in X; rename X into HR end.
+  assert (Hb : In k_bank components) by assumption. assert (Hbr : In k_branch components) by assumption.
+  pose proof (HR _ Hb) as R1. pose proof (HR _ Hbr) as R2. apply range_in_spec in R1, R2.
+  unfold wd, range_length, rng. repeat split; try assumption; lia.
+Qed.
+
+(* the values handed over for the bank and branch fields *)
+Lemma listed_values :
+  get_val k_bank comps2 = py_slice_to code (wd k_bank)
+  /\ ((wd k_bank + wd k_branch <= len code)%Z ->
+      get_val k_branch comps2 = py_slice_to (py_slice code (wd k_bank) (wd k_bank + wd k_branch)) (wd k_branch)).
+Proof using All.
+  destruct listed_facts as (Hb & Hbr & Nbb & _).
+  set (comps0 := rnd_comps0 components r (Some en) pins (upper e d)).
+  assert (H0 : get_val k_bank comps0 = code).
+  { unfold comps0, rnd_comps0, fc_ranges. rewrite map_map. cbn [fst snd].
+    rewrite (get_val_map (fun c => match assoc c pins with Some v0 => v0 | None => _ end) k_bank components Hb).
+    rewrite NOBANK, text_eqb_refl. fold code. destruct code as [|c0 code'] eqn:Ec; [unfold code in Ec; congruence|reflexivity]. }
+  set (comps1 := rnd_comps1 components r pins comps0).
+  assert (Hgen : forall k l, get_val k (map (fun kv : text * text => (fst kv, py_slice_to (snd kv) (range_length (fc_rng components r (fst kv))))) l)
+                 = match assoc k l with Some x => py_slice_to x (wd k) | None => [] end).
+  { intros k l. induction l as [|[k1 v1] l IH]; [reflexivity|]. unfold get_val in *. cbn [map assoc fst snd].
+    destruct (text_eqb k k1) eqn:E; [apply text_eqb_eq in E; subst k1; reflexivity|exact IH]. }
+  assert (Hin0 : forall k, In k components -> exists v, assoc k comps0 = Some v).
+  { intros k Hk. unfold comps0, rnd_comps0, fc_ranges. rewrite map_map. cbn [fst snd].
+    rewrite (assoc_map _ k components Hk). eexists; reflexivity. }
+  split.
+  - unfold comps2, rnd_comps2. fold comps0. fold comps1. rewrite Hgen.
+    assert (H1 : get_val k_bank comps1 = code).
+    { unfold comps1, rnd_comps1. cbv zeta. destruct (_ && _); [|exact H0]. rewrite get_val_set_other; [exact H0|exact Nbb]. }
+    unfold get_val in H1. destruct (assoc k_bank comps1) as [x|] eqn:Ea; [rewrite H1; reflexivity|].
+    exfalso. apply CODE. fold code. symmetry. exact H1.
+  - intro Hlen. unfold comps2, rnd_comps2. fold comps0. fold comps1. rewrite Hgen.
+    assert (H1 : get_val k_branch comps1 = py_slice code (wd k_bank) (wd k_bank + wd k_branch)).
+    { unfold comps1, rnd_comps1. cbv zeta. rewrite NOBRANCH. cbn [negb andb]. rewrite H0.
+      fold rng. fold (wd k_bank) (wd k_branch).
+      replace (wd k_bank + wd k_branch <=? len code)%Z with true by lia.
+      apply get_val_set_same. unfold comps0, rnd_comps0, fc_ranges. rewrite !map_map. cbn [fst]. rewrite map_id. exact Hbr. }
+    unfold get_val in H1. destruct (assoc k_branch comps1) as [x|] eqn:Ea; [rewrite H1; reflexivity|].
+    rewrite <- H1. unfold py_slice_to, py_slice. rewrite skipn_nil, firstn_nil. reflexivity.
+Qed.
+Lemma zfill_exact s w : len s = w -> zfill s w = s.
+Proof. intro H. unfold zfill. rewrite H, Z.leb_refl. reflexivity. Qed.
+
+Lemma rng_pos k : In k components -> position_range r k = rng k.
+Proof using All. intro H. unfold rng, fc_rng, fc_ranges. rewrite (assoc_map (position_range r) k components H). reflexivity. Qed.
+
+(* the lookup key read off the result is the chosen bank's code: countries whose bank-identifying field is the bank
+   code, or bank code followed by branch code *)
+Theorem listed_key b :
+  from_components e components T find_algo cc comps2 = Ok b ->
+  (forall vals K, compute_national find_algo cc vals = Ok K ->
+     K = [] \/ range_is_empty (rng k_national) = true \/ (cleaned e K = true /\ len K = wd k_national)) ->
+  (lookup_components r = [k_bank] /\ len code = wd k_bank)
+  \/ (lookup_components r = [k_bank; k_branch] /\ len code = (wd k_bank + wd k_branch)%Z) ->
+  bban_lookup_key T cc b = Ok code.
+Proof using All.
+  intros Hb HK Hlay.
+  destruct listed_facts as (Hbk & Hbr & Nbb & Nbn & Nrn & Wb & Wr).
+  destruct listed_values as [Vb Vr].
+  pose proof (rnd_only cc r (Some en) pins d Er LAY HP HB' HD HDRAW) as ONLY.
+  pose proof (rnd_nosplit cc r (Some en) pins d Er LAY HP HB' HD HDRAW) as Hs.
+  pose proof (fun k Hk Hn => fc_placed_any e components T find_algo WF ZERO cc r comps2 Er LAY ONLY b k Hb (fun K => HK _ K) Hs Hk Hn) as P.
+  destruct (P k_bank Hbk Nbn) as [Sb _]. destruct (P k_branch Hbr Nrn) as [Sr _].
+  pose proof HCODE as HC. fold code in HC.
+  fold rng in Sb, Sr. fold (wd k_bank) in Sb. fold (wd k_branch) in Sr.
+  unfold bban_lookup_key, get_spec. rewrite Er. cbn [bind]. f_equal.
+  destruct Hlay as [[Hl Hlen]|[Hl Hlen]]; rewrite Hl; cbn [map]; unfold concat_text; cbn [concat]; rewrite ?app_nil_r.
+  - rewrite (rng_pos k_bank Hbk). rewrite Sb, Vb. rewrite (py_slice_to_all code (wd k_bank) Hlen).
+    rewrite (cleaned_fix e _ HC). apply zfill_exact. exact Hlen.
+  - rewrite (rng_pos k_bank Hbk), (rng_pos k_branch Hbr). rewrite Sb, Sr, Vb, (Vr ltac:(lia)).
+    assert (L1 : len (py_slice_to code (wd k_bank)) = wd k_bank).
+    { unfold py_slice_to. rewrite py_slice_sub by lia. unfold len in *. rewrite firstn_length, skipn_length. cbn [Z.to_nat]. lia. }
+    assert (L2 : len (py_slice code (wd k_bank) (wd k_bank + wd k_branch)) = wd k_branch).
+    { rewrite py_slice_sub by lia. unfold len in *. rewrite firstn_length, skipn_length. lia. }
+    rewrite (py_slice_to_all _ (wd k_branch) L2).
+    assert (C1 : cleaned e (py_slice_to code (wd k_bank)) = true) by (unfold py_slice_to; apply py_slice_cleaned; exact HC).
+    assert (C2 : cleaned e (py_slice code (wd k_bank) (wd k_bank + wd k_branch)) = true) by (apply py_slice_cleaned; exact HC).
+    rewrite (cleaned_fix e _ C1), (cleaned_fix e _ C2), (zfill_exact _ _ L1), (zfill_exact _ _ L2).
+    apply split_glue; assumption.
+Qed.
+End Listed.
+(* the bank-identifying field of the country is the bank code, or bank code followed by branch code, and the entry's
+   code has exactly that width *)
+Definition code_fits (r : row) (en : entry) : bool :=
+  let wdk k := range_length (fc_rng components r k) in
+  match e_code en with
+  | [] => false
+  | code =>
+    match lookup_components r with
+    | [k1] => text_eqb k1 k_bank && Z.eqb (len code) (wdk k_bank)
+    | [k1; k2] => text_eqb k1 k_bank && text_eqb k2 k_branch && Z.eqb (len code) (wdk k_bank + wdk k_branch)
+    | _ => false
+    end
+  end.
+
+(* a registry-based draw (bank and branch not pinned) belongs to a listed bank of the country *)
+Theorem random_listed cc0 reg pins ci bi draws cc b r ps :
+  reg = true ->
+  random_bban e components T find_algo R cc0 reg pins ci bi draws = Ok (cc, b) ->
+  find_row T cc = Some r -> r_positions r = Some ps -> fc_layout_ok components r = true -> cc <> [] ->
+  forallb (fun en => cleaned e (e_code en)) R = true ->
+  (forall k0 v0, In (k0, v0) (r_defaults r) -> cleaned e v0 = true) ->
+  (forall k v, In (k, v) pins -> cleaned e v = true) ->
+  (forall d, In d draws -> cleaned e (upper e d) = true) ->
+  (forall vals K, compute_national find_algo cc vals = Ok K ->
+     K = [] \/ range_is_empty (fc_rng components r k_national) = true
+     \/ (cleaned e K = true /\ len K = range_length (fc_rng components r k_national))) ->
+  assoc k_bank pins = None -> assoc k_branch pins = None ->
+  (bi < List.length (country_entries R cc))%nat ->
+  (forall en, In en (country_entries R cc) -> code_fits r en = true) ->
+  exists x, bban_bank T (bank_code_entries R) cc b = Ok (Some x) /\ In x R /\ e_cc x = cc
+    /\ bban_lookup_key T cc b = Ok (e_code x).
+Proof using WF ZERO.
+  intros Hreg H Er Eps LAY Hcc HCODES HD HP HDRAWS HK NB NBR Hbi Hfits. subst reg.
+  unfold random_bban in H. cbv zeta in H. unfold get_spec in H.
+  set (cc' := match cc0 with [] => nth ci (country_keys R) [] | _ => cc0 end) in *.
+  destruct (find_row T cc') as [r'|] eqn:Er'; [|discriminate]. cbn [bind] in H.
+  assert (Ecc : cc = cc').
+  { destruct (r_positions r'); [destruct (attempts _ _ _ _ _ _ _ _ _ _)|destruct draws]; cbn [bind] in H; congruence. }
+  clearbody cc'. subst cc'. rewrite Er in Er'. inversion Er'; subst r'. clear Er'. rewrite Eps in H.
+  destruct (nth_error (country_entries R cc) bi) as [en|] eqn:Een; [|apply nth_error_None in Een; lia].
+  assert (Ebank : match country_entries R cc with [] => None | l => nth_error l bi end = Some en).
+  { destruct (country_entries R cc) as [|e0 l]; [cbn [List.length] in Hbi; lia|exact Een]. }
+  rewrite Ebank in H.
+  destruct (attempts e components T find_algo 100 cc r (Some en) pins draws) as [b0|x|x] eqn:E; try discriminate. cbn [bind] in H.
+  inversion H; subst b0. clear H.
+  destruct (attempts_ok _ _ _ _ _ _ _ E) as (d & Hd & Hfc).
+  pose proof (nth_error_In _ _ Een) as Hen. pose proof (Hfits en Hen) as Hfit.
+  assert (HenR : In en R /\ e_cc en = cc).
+  { unfold country_entries, idx_filter in Hen. apply filter_In in Hen as [H1 H2]. split; [exact H1|].
+    unfold key_country in H2. destruct (nonempty (e_cc en)); [|discriminate]. apply text_eqb_eq in H2. symmetry. exact H2. }
+  destruct HenR as [HenR Hecc].
+  assert (HC : cleaned e (e_code en) = true) by (rewrite forallb_forall in HCODES; exact (HCODES en HenR)).
+  unfold code_fits in Hfit. destruct (e_code en) as [|c0 code'] eqn:Ecode; [discriminate|].
+  assert (Hne : e_code en <> []) by (rewrite Ecode; discriminate).
+  assert (Hkey : bban_lookup_key T cc b = Ok (e_code en)).
+  { rewrite <- Ecode in Hfit. rewrite <- Ecode in HC. 
+    apply (listed_key cc r en pins d Er LAY HP HC HD (HDRAWS d Hd) NB NBR Hne b Hfc HK).
+    destruct (lookup_components r) as [|k1 [|k2 [|k3 lk]]]; try discriminate.
+    - left. apply andb_true_iff in Hfit as [H1 H2]. apply text_eqb_eq in H1. apply Z.eqb_eq in H2. subst k1. split; [reflexivity|exact H2].
+    - right. apply andb_true_iff in Hfit as [H12 H3]. apply andb_true_iff in H12 as [H1 H2].
+      apply text_eqb_eq in H1, H2. apply Z.eqb_eq in H3. subst k1 k2. split; [reflexivity|exact H3]. }
+  destruct (found_again' cc b (e_code en) en HenR Hecc eq_refl Hcc Hne Hkey) as (x & Hx & Hcx & Hccx & HxR).
+  exists x. split; [exact Hx|]. split; [exact HxR|]. split; [exact Hccx|]. rewrite Hcx. exact Hkey.
+Qed.
+(* every registry entry of the country fits *)
+Definition all_fit_gen (cc : text) : bool :=
+  match find_row T cc with
+  | Some r => forallb (fun en => negb (text_eqb (e_cc en) cc) || code_fits r en) R
+  | None => false
+  end.
+
+Lemma all_fit_entries cc r :
+  find_row T cc = Some r -> all_fit_gen cc = true ->
+  forall en, In en (country_entries R cc) -> code_fits r en = true.
+Proof.
+  intros Er Hfit en Hen. unfold all_fit_gen in Hfit. rewrite Er in Hfit. rewrite forallb_forall in Hfit.
+  unfold country_entries, idx_filter in Hen. apply filter_In in Hen as [H1 H2]. specialize (Hfit en H1).
+  unfold key_country in H2. destruct (nonempty (e_cc en)); [|discriminate].
+  apply text_eqb_eq in H2. subst cc. rewrite text_eqb_refl in Hfit. exact Hfit.
+Qed.
 End RandomFacts.
